@@ -108,6 +108,11 @@ def run(tape, scenario):
     for k in range(nterm):
         ident = (tape.draw("c17/vendor", 1 << 32), tape.draw("c17/product", 1 << 32),
                  tape.draw("c17/revision", 1 << 32), 1 + tape.draw("c17/serial", 1 << 31))
+        if tape.chance("c17/identity-at-a-boundary", 20):
+            # an identity field at the edge of its 32 bits (unprogrammed: all ones)
+            which = tape.draw("c17/boundary-field", 4)
+            edge = tape.pick("c17/boundary-value", [0xffffffff, 0x80000000, 0xfffffffe, 0, 0x7fffffff])
+            ident = ident[:which] + (edge,) + ident[which + 1:]
         out_pdos, out_expect, outbits = gen_pdos(tape, 0x7000, "c17/rx")
         in_pdos, in_expect, inbits = gen_pdos(tape, 0x6000, "c17/tx")
         with_mbx = scenario == "sdo-pdos" or (scenario == "ebpf-terminal"
@@ -198,6 +203,16 @@ def run(tape, scenario):
         t.name = f"T{k}"
         terms[k] = t
         await asyncio.sleep([0, 0, 50e-6, 400e-6][tape.draw("c17/stagger", 4)])
+        if tape.chance("c17/eeprom-busy-at-the-start", 20):
+            # the EEPROM interface is still working on a command somebody gave it and
+            # walked away from (a reader that was cancelled, another master's tool): it
+            # stays busy for some polls and then shows that command's bytes
+            st = specs[k]["st"]
+            keep = st.ee_delay
+            st.ee_delay = lambda: 2 + tape.draw("c17/leftover-busy", 12)
+            st._ee_command(struct.pack("<HI", 0x100, 0x20 + 4 * tape.draw("c17/leftover-addr", 8)))
+            st.ee_delay = keep
+            world.count("c17/eeprom-interface-busy-with-a-leftover-command")
         await t.initialize(relative=-k)
         r = {}
         if scenario == "ebpf-terminal":
@@ -215,7 +230,7 @@ def run(tape, scenario):
             sp = specs[k]
             gone = tape.pick("c17/category-gone", sp["generic"])
             cats2 = [(typ, data) for typ, data in sp["cats"].items() if typ != gone]
-            ident2 = sp["ident"][:3] + (sp["ident"][3] + 1,)
+            ident2 = sp["ident"][:3] + ((sp["ident"][3] + 1) & 0xffffffff,)
             sp["st"].eeprom = sii.build(*ident2, categories=cats2)
             await t.read_eeprom()
             r["reread"] = (ident2, dict(cats2), {typ: bytes(v) for typ, v in t.eeprom.items()},
